@@ -6,6 +6,7 @@ use serde_json::Value;
 pub mod c01;
 pub mod c02;
 pub mod c03;
+pub mod c04;
 pub mod c05;
 pub mod c08;
 pub mod c14;
@@ -18,6 +19,7 @@ pub fn run(id: &str, tier: Tier) -> Option<CheckResult> {
         "C01" => Some(c01::run(tier)),
         "C02" => Some(c02::run(tier)),
         "C03" => Some(c03::run(tier)),
+        "C04" => Some(c04::run(tier)),
         "C05" => Some(c05::run(tier)),
         "C08" => Some(c08::run(tier)),
         "C14" => Some(c14::run(tier)),
@@ -33,6 +35,7 @@ pub fn replay(id: &str, case: &Value) -> Option<Vec<Violation>> {
         "C01" => Some(c01::replay(case)),
         "C02" => Some(c02::replay(case)),
         "C03" => Some(c03::replay(case)),
+        "C04" => Some(c04::replay(case)),
         "C05" => Some(c05::replay(case)),
         "C08" => Some(c08::replay(case)),
         "C14" => Some(c14::replay(case)),
